@@ -5,6 +5,7 @@
 package tbubble
 
 import (
+	"slices"
 	"context"
 	"fmt"
 	"sort"
@@ -90,6 +91,11 @@ func runInBubble(c Case) (res result) {
 	for i, at := range c.NonMembers {
 		closeAt(nonMembers[i], at)
 	}
+	type earlierResult struct {
+		call      int
+		got, copy []<-chan struct{}
+	}
+	var earlier []earlierResult
 	late := map[int]bool{}
 	for _, i := range c.AddLate {
 		if i >= 0 && i < len(members) {
@@ -145,6 +151,13 @@ func runInBubble(c Case) (res result) {
 		}
 		chans, err := ws.Wait(ctx, settle)
 		ret := time.Since(start)
+		// results of earlier calls belong to the caller: a later Wait must not change them
+		for _, e := range earlier {
+			if !slices.Equal(e.got, e.copy) {
+				return fail("earlier-result-changed", "the slice returned by call %d changed during call %d", e.call, call)
+			}
+		}
+		earlier = append(earlier, earlierResult{call: call, got: chans, copy: slices.Clone(chans)})
 		ctxErr := ctx.Err()
 		cancel()
 		// ---- oracle
